@@ -165,6 +165,11 @@ def random_script(rng, level, n, beyond=False, g=None):
             report()
             streams[st.s] = Stream(rng, st.s, rng.choice(rates))
             steps.append(ev("bind", s=st.s, rate=streams[st.s].rate))
+            if level == "icpt" and rng.random() < 0.6:
+                # reads that were in flight when the stream was removed arrive through the reader of the OLD binding (after
+                # the SSRC has been bound again): accounted to nothing
+                for d in (100, 101, 3000):
+                    steps.append(dict(ev("rtp", s=st.s, w=(st.pos + d) % 65536, ts=st.ts, t=now), stale=True))
         else:
             now += rng.choice([100, 700, 5000])
             report()
@@ -214,7 +219,7 @@ def inside_history(script):
         if e["a"] in ("bind", "unbind"):
             hi.pop(s, None)
             rep.pop(s, None)
-        elif e["a"] == "rtp" and not e.get("rfail"):
+        elif e["a"] == "rtp" and not e.get("rfail") and not e.get("stale"):
             if s not in hi:
                 hi[s], rep[s] = e["w"], e["w"] - 1
             else:
